@@ -605,6 +605,22 @@ theorem rpg_monitor_accepts_model (k : RKind) (hk : k.isPaged = true) (keys : Li
   rcases required_lists_present_paged k hk (fun u => .str u) keys ps c with ⟨_, h⟩ | ⟨items, h, _, _⟩ <;>
     simp [rpgMonitor, modelPg, h]
 
+/-- what the driver's `r.pg.list` arm observes of the model for ANY listed registry (paged or whole) -/
+def modelReg (k : RKind) (keys : List Bytes) (ps : Nat) (c : Cursor) : PgObs :=
+  match (listReg k (fun u => .str u) keys ps c).1 with
+  | .errorInstead => .fine
+  | .sent (.arr _) => .fine
+  | .sent _ => .null
+
+theorem rreg_monitor_accepts_model (k : RKind) (hk : k.isListed = true) (keys : List Bytes) (ps : Nat) (c : Cursor) :
+    rpgMonitor k keys ps c (modelReg k keys ps c) = none := by
+  by_cases hp : k.isPaged = true
+  · have : modelReg k keys ps c = modelPg k keys ps c := by simp [modelReg, modelPg, listReg, hp]
+    rw [this]; exact rpg_monitor_accepts_model k hp keys ps c
+  · have hr : k = .listRoots := by cases k <;> simp_all [RKind.isListed, RKind.isPaged]
+    subst hr
+    simp [rpgMonitor, modelReg, listReg, RKind.isPaged, L.listAll_sent]
+
 /-! ## the byte stream of an io connection -/
 
 def modelNd (l : List (Bytes × Bytes)) : NdObs := .read (readStream (joinWs l)).1 (readStream (joinWs l)).2
